@@ -58,11 +58,19 @@ class IntegrateFacts:
         self.row_params = list(ROW_ROLES)
         # state roles from the row sites that pass plain names for (time, position, velocity vector)
         roles = None
+        # (names bound only inside the loop are not the state: a sample unpacked into locals before its row is built)
+        bound_outside = {x.id for st_ in ast.walk(fn) if isinstance(st_, (ast.Assign, ast.AnnAssign, ast.AugAssign))
+                         and not self._inside(st_, self.loop)
+                         for t_ in (st_.targets if isinstance(st_, ast.Assign) else [st_.target])
+                         for x in ast.walk(t_) if isinstance(x, ast.Name)} | set(self.func.params)
+        self.bound_outside = bound_outside
         for c in self.row_calls:
             a = self.row_args(c)
             trip = (a.get('time'), a.get('range_vector'), a.get('velocity_vector'))
             if all(isinstance(x, ast.Name) for x in trip):
                 names = tuple(x.id for x in trip)
+                if not all(n_ in bound_outside for n_ in names):
+                    continue
                 if roles is None:
                     roles = names
                 elif roles != names:
@@ -143,6 +151,8 @@ def check_row_sites(prog: Program, rep, rule: str) -> None:
     record_result_names = set()
     for rc in F.record_calls:
         p = getattr(rc, '_parent', None)
+        while isinstance(p, ast.IfExp):          # `data = flt.should_record(...) if flags else None`
+            p = getattr(p, '_parent', None)
         if isinstance(p, ast.NamedExpr):
             record_result_names.add(p.target.id)
         elif isinstance(p, ast.Assign) and isinstance(p.targets[0], ast.Name):
@@ -151,8 +161,45 @@ def check_row_sites(prog: Program, rep, rule: str) -> None:
     for n_ in ast.walk(F.loop):
         if isinstance(n_, ast.Name) and isinstance(n_.ctx, ast.Store):
             loop_assigned.add(n_.id)
+    # fields of the sample record by position: a sample unpacked into locals (`t, p, v, m = data`) is read as its fields
+    sample_fields: List[str] = []
+    for cname in ('BaseTrajData',):
+        if cname in mod.classes:
+            sample_fields = [s_.target.id for s_ in mod.classes[cname].node.body
+                             if isinstance(s_, ast.AnnAssign) and isinstance(s_.target, ast.Name)]
+
+    def through_unpack(expr: ast.AST, at: ast.AST) -> ast.AST:
+        import copy as _copy
+
+        class _T(ast.NodeTransformer):
+            def visit_Name(self, n):
+                if not isinstance(n.ctx, ast.Load):
+                    return n
+                try:
+                    ds = F.defs_reaching(at, n.id)
+                except AnalysisError:
+                    return n
+                if len(ds) != 1:
+                    return n
+                d = ds[0].ast
+                if isinstance(d, ast.Assign) and len(d.targets) == 1 and isinstance(d.targets[0], ast.Tuple) \
+                        and isinstance(d.value, ast.Name) and d.value.id in record_result_names \
+                        and len(d.targets[0].elts) == len(sample_fields) \
+                        and all(isinstance(e, ast.Name) for e in d.targets[0].elts):
+                    # the sample itself must still be the one unpacked: no other definition of it reaches the site
+                    src_defs_here = {x.id for x in F.defs_reaching(at, d.value.id)}
+                    src_defs_there = {x.id for x in F.defs_reaching(d, d.value.id)}
+                    if src_defs_here != src_defs_there:
+                        return n
+                    pos = [e.id for e in d.targets[0].elts].index(n.id)
+                    return ast.copy_location(ast.Attribute(value=ast.Name(id=d.value.id, ctx=ast.Load()),
+                                                           attr=sample_fields[pos], ctx=ast.Load()), n)
+                return n
+        return ast.fix_missing_locations(_T().visit(_copy.deepcopy(expr)))
     for idx, call in enumerate(F.row_calls):
         a = F.row_args(call)
+        if sample_fields and F.cfg.node_of(call) is not None:
+            a = {k_: through_unpack(v_, call) for k_, v_ in a.items()}
         site = f'row site #{idx + 1} (line {call.lineno})'
         key = f'site{idx + 1}'
         # a row built inside a nested function (closure / comprehension helper): its free variables are read when the
@@ -346,7 +393,8 @@ class LimitBlock:
     def _after_updates(F, call) -> bool:
         # the row site that belongs to the limit block is the in-loop one that is not fed by should_record
         a = F.row_args(call)
-        return all(isinstance(a.get(k), ast.Name) for k in ('time', 'range_vector', 'velocity_vector')) and F._inside(call, F.loop)
+        return all(isinstance(a.get(k), ast.Name) and a[k].id in F.bound_outside
+                   for k in ('time', 'range_vector', 'velocity_vector')) and F._inside(call, F.loop)
 
 
 def eval_limit_block(prog: Program, F: 'IntegrateFacts', LB: 'LimitBlock'):
